@@ -796,8 +796,8 @@ def classify(kind, events, impl, model, ep=None):
     for k in sorted(exp):
         e, g = exp[k], got.get(k, "missing")
         if k in amb and e.startswith("found") and g.startswith("found"):
-            ep, gp = e.split(":"), g.split(":")
-            if ep[1] == gp[1] and ep[4] == gp[4]:
+            e_p, g_p = e.split(":"), g.split(":")
+            if e_p[1] == g_p[1] and e_p[4] == g_p[4]:
                 continue
         if e != g:
             ek, gk = e.split(":")[0], g.split(":")[0]
